@@ -12,6 +12,7 @@ package main
 // the request stream does not change when the library does.
 
 import (
+	"sync"
 	"bytes"
 	"crypto/sha512"
 	"math/big"
@@ -119,7 +120,7 @@ func vrfVer(withY bool) string {
 
 // ---------------------------------------------------------------------------------------------
 
-var vrfKeyBuf [64]byte
+var vrfKeyBufs = sync.Pool{New: func() interface{} { return new([64]byte) }}
 
 func genE1(g *Gen) {
 	em := func(class string, fields ...string) {
@@ -373,11 +374,13 @@ func execE1(op string, a []string) string {
 	switch op {
 	case "vrf.prove":
 		sk, alpha := ed25519.PrivateKey(unhex(a[1])), unhex(a[2])
-		if len(sk) == len(vrfKeyBuf) {
-			// the caller's key lives in ONE buffer that is overwritten in place from call to call: nothing may be
-			// remembered about a key by reference
-			copy(vrfKeyBuf[:], sk)
-			sk = ed25519.PrivateKey(vrfKeyBuf[:])
+		if len(sk) == 64 {
+			// the caller's key lives in a buffer that is overwritten in place from call to call (one buffer per goroutine
+			// at a time: a pool): nothing may be remembered about a key by reference
+			buf := vrfKeyBufs.Get().(*[64]byte)
+			defer vrfKeyBufs.Put(buf)
+			copy(buf[:], sk)
+			sk = ed25519.PrivateKey(buf[:])
 		}
 		if a[0] == "v10" {
 			return "ok " + hx(ecvrf.Prove_v10(sk, alpha))
